@@ -120,7 +120,9 @@ func GetFileNameList(path string, ignoreList []string) (fields []Field, err erro
 			copy(fnwi.Creator[:], hlFile.Ffo.FlatFileInformationFork.CreatorSignature[:])
 		}
 
-		strippedName := strings.ReplaceAll(file.Name(), ".incomplete", "")
+		// A partial upload is listed under its final name: drop the ".incomplete" suffix (only the suffix; a complete
+		// file may contain ".incomplete" elsewhere in its name).
+		strippedName := strings.TrimSuffix(file.Name(), IncompleteFileSuffix)
 		strippedName, err = txtEncoder.String(strippedName)
 		if err != nil {
 			continue
